@@ -285,7 +285,7 @@ def run_session(base, sid, seed, two_docs, rounds, mutate_trace=None):
             toks[d.name] = "ABSENT" if "error" in r else (d.tok() if same else d.name + "?tree")
             if not same:
                 fail({"what": "text_diverged", "phase": label}, {"doc": d.name, "client_len": len(d.text),
-                                                                "server": r.get("error", r.get("result", ""))[:300]})
+                                                                "server": str(r.get("error", r.get("result", "")))[:300]})
         settle(10.0)
         evs = read_trace(trace_path)
         quiesce_marks.append((evs[-1]["seq"] if evs else 0, toks))
